@@ -194,6 +194,13 @@ theorem Frozen.doc {s s' : RState} (h : Frozen s s') (r : NodeId) (d : DocRes)
     simp only [Option.map_some, Option.some.injEq, Prod.mk.injEq] at this
     exact ⟨d', rfl, this.1, this.2⟩
 
+/-- the draft of a Resolved is frozen -/
+theorem draftOf_frozen {s s' : RState} (h : Frozen s s') (r : NodeId) : s'.draftOf r = s.draftOf r := by
+  unfold RState.draftOf
+  have := h.2.1 r
+  cases h1 : s.doc? r <;> cases h2 : s'.doc? r <;> rw [h1, h2] at this <;> simp at this
+  · exact this.2
+
 theorem Frozen.doc_rev {s s' : RState} (h : Frozen s s') (r : NodeId) (d' : DocRes)
     (hd : s'.doc? r = some d') : ∃ d, s.doc? r = some d ∧ d'.uris = d.uris ∧ d'.draft = d.draft := by
   have := h.2.1 r
